@@ -20,6 +20,9 @@ import (
 var Registry = map[string]func(tier string) []fw.Scenario{}
 
 func sub[T any](o ro.Observable[T], rec *h.Rec) ro.Subscription {
+	if rec.Raw {
+		return o.SubscribeWithContext(ctxWith(), h.RawObserver[T](rec))
+	}
 	return o.SubscribeWithContext(ctxWith(), h.Observer[T](rec))
 }
 
